@@ -417,6 +417,80 @@ hist!(c09_bc_a2w, hk_c09_bc_a2w, BcB, 2, sk 1, 10, 1, 1, false);
 hist!(c09_mp_a1w, hk_c09_mp_a1w, MpB, 1, sk 1, 10, 1, 1, false);
 hist!(c09_bc_a5w, hk_c09_bc_a5w, BcB, 5, sk 1, 10, 2, 2, false);
 
+// ==========================================================================================
+// C17 (bounded under churn): a handle that keeps operating must announce every reclamation epoch
+// it is signalled, whatever the outcome of the operation - a handle that does not blocks every
+// later reclamation cycle, and the memory retired by add/clone/drop cycles on OTHER handles then
+// grows without bound.  Sequential, stubbed manager: the ledger counts update_token calls.
+//   broadcast: tx0, rx0 (stream 0), ux0 (stream 1, single-consumer);  mpmc: tx0, ux0
+pub fn announce_liveness<F: Fl, const BCAST: bool>(cap: u64) {
+    use multiqueue2::verif_hooks::memory_access::ledger as mm;
+    crate::ledger::reset();
+    payload::reset();
+    sched::configure(0, 0, 0, 0);
+    let mut w = World::<F>::new(cap);
+    set_world::<F>(&mut *w);
+    if BCAST {
+        w.rx[1] = Some(F::add_stream(w.rx[0].as_ref().unwrap()));
+        w.rx_stream[1] = 1;
+        let r = w.rx[1].take().unwrap();
+        match F::into_single(r) {
+            Ok(u) => w.ux[0] = Some(u),
+            Err(_) => unreachable!(),
+        }
+    } else {
+        let r = w.rx[0].take().unwrap();
+        match F::into_single(r) {
+            Ok(u) => w.ux[0] = Some(u),
+            Err(_) => unreachable!(),
+        }
+    }
+    crate::ledger::declare_send(0, 0, 1);
+    crate::ledger::declare_recv(1, 1, 0);
+    crate::ledger::declare_recv(2, 2, 1);
+    crate::ledger::declare_recv(3, 1, 0);
+    crate::ledger::declare_recv(4, 2, 1);
+    crate::ledger::declare_send(5, 0, 2);
+    // the value may or may not be in the queue when the receivers operate
+    let queued: bool = kani::any();
+    inject_epoch_pending::<F>(w.tx[0].as_ref().unwrap());
+    macro_rules! announced {
+        ($u:expr) => {
+            assert!(
+                mm().updates > $u,
+                "C17: an operation that returned did not announce the pending reclamation epoch: a handle that keeps operating this way blocks every reclamation cycle and retired memory grows without bound"
+            )
+        };
+    }
+    if queued {
+        let u = mm().updates;
+        op_send::<F>(0, 0, 1);
+        announced!(u);
+    }
+    if BCAST {
+        let u = mm().updates;
+        op_recv::<F>(1, 0);
+        announced!(u);
+    }
+    let u = mm().updates;
+    op_u_view::<F>(2, 0);
+    announced!(u);
+    kani::cover!(queued && crate::ledger::lg().recs[2].res == crate::ledger::R_OK, "the single-consumer receiver viewed a value in place");
+    // second round: the queue is empty now
+    if BCAST {
+        let u = mm().updates;
+        op_recv::<F>(3, 0);
+        announced!(u);
+    }
+    let u = mm().updates;
+    op_u_view::<F>(4, 0);
+    announced!(u);
+    kani::cover!(crate::ledger::lg().recs[4].res == crate::ledger::R_EMPTY, "the single-consumer receiver found the queue empty");
+    let _ = &w; // ManuallyDrop: never dropped
+}
+crate::mq_harness!(c17_announce_bc, hk_c17_announce_bc, Idle, announce_liveness::<BcB, true>(2));
+crate::mq_harness!(c17_announce_mp, hk_c17_announce_mp, Idle, announce_liveness::<MpB, false>(2));
+
 macro_rules! fd {
     ($name:ident, $hk:ident, $f:ty, $cap:literal, $n:literal) => {
         crate::mq_harness!($name, $hk, Idle, fill_drain::<$f>($cap, $n));
